@@ -22,7 +22,7 @@ DEFAULT = dict(
     p_cache_ops=0.08, cache_rels=['../cache.gz', '../cache.gz', 'cache.gz',
                                   '../cd/cache.gz'],
     query_kinds=QUERY_KINDS, p_tamper=0.3, args_pool='small',
-    p_spelling=0.0, p_get_size=1.0, w_probe=0, w_mut=0, p_ret_val=0.0,
+    p_spelling=0.0, p_get_size=1.0, w_probe=0, w_mut=3, p_ret_val=0.0,
     names=None, p_q_spelling=0.0, p_chdir_step=0.0, p_tick0=0.0,
     p_tick_back=0.0, mutation_ops=['write', 'write', 'rm', 'rm', 'mkdir',
                                    'touch'],
@@ -146,15 +146,25 @@ class Gen:
     def step_value(self):
         """A value that changes from build to build within one family."""
         rng = self.rng
+        if rng.random() < 0.2:
+            # a container and what it looks like after an in-place edit by
+            # user code (see interp._mutate_value)
+            return {'__step__': rng.choice([
+                [[1], [1, 'MUT']], [{'k': 1}, {'k': 1, 'MUT': 1}],
+                [[[1]], [[1, 'MUT'], 'MUT']], [[1, 'MUT'], [1]],
+                [{'k': [1]}, {'k': [1, 'MUT'], 'MUT': 1}, {'k': [1]}]])}
         fam = rng.choice(CONFUSABLE)
         alts = []
         for _ in range(rng.randint(2, 3)):
             alts.append(rng.choice(rng.choice(fam)))
         return {'__step__': alts}
 
-    def small_args(self):
+    def small_args(self, top=True):
         rng = self.rng
-        if self.chance('p_stepargs'):
+        # (arguments that change from build to build only at call sites of
+        # the root function: inside a cacheable function they would be a
+        # hidden input, i.e. the function would not be deterministic)
+        if top and self.chance('p_stepargs'):
             v = self.step_value()
             r = rng.random()
             if r < 0.4:
@@ -260,7 +270,7 @@ class Gen:
                 if self.chance('p_cache_target'):
                     # the cache file itself, or something below it
                     rel = self.cur_cache_rel + rng.choice(['', '/x'])
-                args, kwargs = self.small_args()
+                args, kwargs = self.small_args(fid_index == -1)
                 cmp = 'HASH' if self.chance('p_hash') else 'METADATA'
                 if self.chance('p_stepcmp'):
                     # the comparison mode of this call site changes from
@@ -295,7 +305,7 @@ class Gen:
                     body.append(self.gen_query(ctx['U']))
                     continue
                 fi, fid = rng.choice(cands)
-                args, kwargs = self.small_args()
+                args, kwargs = self.small_args(fid_index == -1)
                 st = ['sb', fid, args, kwargs, self.chance('p_catch')]
                 body.append(st)
                 ctx['calls'].append(st)
@@ -714,6 +724,10 @@ def gen_stragglers(seed, params=None):
                     rng.choice(['z0', 'z1', 'z0', 'z1', 'zm', 'zz/g'])
                 body.append(['q', kind, rel, rng.choice(['METADATA',
                                                          'HASH'])])
+                if rng.random() < 0.3:
+                    # the same operation again (and again)
+                    for _ in range(rng.randint(1, 2)):
+                        body.append(list(body[-1]))
             elif r < 0.8:
                 body.append(['sb', 'SZ', [counter[0]], {}])
             else:
@@ -832,6 +846,8 @@ def generate(profile, seed, params=None):
         return gen_stragglers(seed, params)
     if profile == 'race':
         return gen_race(seed, params)
+    if profile == 'dep':
+        return gen_dep(seed, params)
     p = dict(PROFILES.get(profile, {}))
     if params:
         p.update(params)
@@ -932,6 +948,90 @@ def gen_race(seed, params=None):
     }
 
 
+def gen_dep(seed, params=None):
+    """Threads of one build whose operations depend on each other and are
+    ordered by user-level synchronisation: one thread builds a file and
+    signals, another waits for the signal and reads that file (C09: the
+    record must replay in an order in which it is valid - an unchanged
+    rebuild re-executes nothing)."""
+    P = dict(p_line=0.0)
+    if params:
+        P.update(params)
+    rng = random.Random(seed)
+    funcs = {
+        'FB': {'kind': 'file', 'name': 'nFB', 'variants': [
+            [['q', 'read_text', 'x0', 'METADATA'], ['w', 'once']]]},
+        'FC': {'kind': 'file', 'name': 'nFC', 'variants': [
+            [['w', 'once']]]},
+    }
+    outb = rng.choice(['outb', 'd/outb', 'd/e/outb'])
+    reader = [['await', 's1'],
+              ['q', rng.choice(['read_text', 'is_file', 'get_size',
+                                'declare_read']), outb, rng.choice(
+                  ['HASH', 'METADATA'])]]
+    if '/' in outb and rng.random() < 0.6:
+        # (a directory in which no other thread is working at that time:
+        # the operations of different threads stay independent unless
+        # ordered by the event)
+        reader.append(['q', 'list_dir', outb.rsplit('/', 1)[0]])
+    if rng.random() < 0.6:
+        funcs['A'] = {'kind': 'sub', 'name': 'nA', 'variants': [reader]}
+        t_reader = [['q', 'is_file', 'x1'], ['sb', 'A', [], {}, True]]
+        direct = False
+    else:
+        t_reader = reader
+        direct = True
+    t_writer = [['bf', outb, 'FB', [], {}, rng.choice(['METADATA', 'HASH']),
+                 True], ['signal', 's1']]
+    if rng.random() < 0.4:
+        t_writer.insert(0, ['q', 'exists', 'x1'])
+    bodies = [t_reader, t_writer]
+    if rng.random() < 0.5:
+        bodies.append([['bf', rng.choice(['g/oc', 'g/h/oc']), 'FC', [], {},
+                        'METADATA', True]])
+    if rng.random() < 0.5:
+        bodies.reverse()
+    nt = len(bodies)
+    spawn = ['spawn', bodies]
+    if rng.random() < 0.6:
+        funcs['P'] = {'kind': 'sub', 'name': 'nP', 'variants': [
+            [spawn, ['q', 'is_file', 'x1']]]}
+        root = [['sb', 'P', [], {}, True]]
+        # P's record replays its children in the recorded order
+        noexec = True
+    else:
+        # (the root function always runs again and issues the calls in its
+        # own, sequential order: the reader's record is then checked before
+        # the writer's output is applied - a justified re-execution)
+        root = [spawn]
+        noexec = False
+    steps = [{'op': 'freebuild', 'root': 0, 'versions': {}, 'nodiff': True,
+              'sched': gen_sched(rng, nt, P['p_line'])},
+             {'op': 'freebuild', 'root': 0, 'versions': {}, 'nodiff': True,
+              'noexec': noexec}]
+    if rng.random() < 0.6:
+        steps.append({'op': 'mutate', 'muts': [
+            ['write', rng.choice(['x0', 'x1']), 'changed']]})
+        steps.append({'op': 'freebuild', 'root': 0, 'versions': {},
+                      'nodiff': True,
+                      'sched': gen_sched(rng, nt, P['p_line'])})
+        # When the reader is a subbuild with a record, the library checks
+        # that record at call time - before the function's own ``await`` -
+        # so its validity depends on how far the writer has got: the two
+        # operations are then not ordered by the program, and which record
+        # order results is not specified.  Only asserted for direct readers.
+        steps.append({'op': 'freebuild', 'root': 0, 'versions': {},
+                      'nodiff': True, 'noexec': noexec and direct})
+    steps.append({'op': 'freeclean'})
+    return {
+        'profile': 'dep', 'seed': seed,
+        'config': {'cache_rel': '../cache.gz', 'build_name': 'B',
+                   'listdir_seed': rng.randrange(1 << 30)},
+        'init': [['write', 'x0', 'in0'], ['write', 'x1', 'in1']],
+        'funcs': funcs, 'roots': [root], 'steps': steps, 'n_threads': nt,
+    }
+
+
 def gen_threads(seed, params=None):
     """Scenario for C09 / C08-threads: operations that do not depend on each
     other, issued concurrently; history = builds (threaded), mutations of
@@ -992,6 +1092,23 @@ def gen_threads(seed, params=None):
                                               'get_size']),
                              rng.choice(['x0', 'x1']), 'METADATA'])
         bodies.append(body)
+    # another thread asks about a target whose function fails: a failed
+    # output is never visible, whatever the interleaving
+    for i, body in enumerate(list(bodies)):
+        for st in list(body):
+            if st[0] == 'bf' and st[2] in ('Fbad', 'Fnone') and nt > 1 and \
+                    rng.random() < P.get('p_peek', 0.5):
+                j = rng.choice([k for k in range(nt) if k != i])
+                q = ['q', rng.choice(['is_file', 'exists', 'read_text',
+                                      'get_size', 'declare_read']), st[1],
+                     'METADATA']
+                bodies[j].insert(rng.randint(0, len(bodies[j])), q)
+    if P.get('p_foreign', 0.0) and rng.random() < P['p_foreign']:
+        # foreign files at the targets: every thread moves one aside
+        for body in bodies:
+            for st in body:
+                if st[0] == 'bf' and rng.random() < 0.7:
+                    init.append(['write', st[1], 'foreign-' + st[1]])
     spawn = ['spawn', bodies]
     if rng.random() < P['p_same_key']:
         # C08: the same key from two threads (identical bodies)
